@@ -151,6 +151,9 @@ func ParseValidators(extra []byte) ([][]byte, error) {
 		return nil, sdkerrors.Wrap(ErrInvalidValidatorBytes, "(validatorsBytes % AddressLength) should bz zero")
 	}
 	n := len(validatorBytes) / addressLength
+	if n == 0 {
+		return nil, sdkerrors.Wrap(ErrInvalidValidatorBytes, "epoch header lists no validators")
+	}
 	result := make([][]byte, n)
 	for i := 0; i < n; i++ {
 		address := make([]byte, addressLength)
